@@ -105,3 +105,50 @@ impl Monitor for Hist {
         }
     }
 }
+
+/// `d13`: the one open known finding, exercised on purpose so that the C03 check reports it
+/// as KNOWN-FINDING on every run (and would notice if its signature changed).
+pub struct D13;
+
+impl Monitor for D13 {
+    fn name(&self) -> &'static str {
+        "d13"
+    }
+    fn budget(&self, _ctx: &Ctx) -> u64 {
+        16
+    }
+    fn panic_prop(&self) -> Option<&'static str> {
+        Some("C03")
+    }
+    fn case(&self, ctx: &Ctx, idx: u64, st: &mut Stats) -> CaseResult {
+        let mut cfg = Cfg::default();
+        cfg.kind = if idx & 1 == 0 { Kind::SincIn } else { Kind::SincOut };
+        cfg.interp = if idx & 2 == 0 { Interp::Cubic } else { Interp::Quadratic };
+        cfg.oversampling = 1;
+        cfg.ratio = if idx & 8 == 0 { 1.37 } else { 0.61 };
+        cfg.sinc_len = 32;
+        cfg.chunk = 64;
+        let f32_ = idx & 4 == 0;
+        let ops = vec![Op::Proc { path: Path::Exact, slack_in: 0, slack_out: 0, mask: None, empty_inactive: false }; 4];
+        let desc = J::obj().with("sample", J::s(if f32_ { "f32" } else { "f64" })).with("cfg", cfg.json()).with("signal", J::s("noise")).with("ops", ops_json(&ops));
+        set_desc(&desc);
+        let mut cr = CaseResult { desc, ..Default::default() };
+        if ctx.describe {
+            return cr;
+        }
+        st.add("d13_probes", 1.0);
+        if f32_ {
+            let mut r = Runner::<f32>::fresh(&cfg, Sig::noise(1)).unwrap();
+            for op in &ops {
+                r.step(op);
+            }
+        } else {
+            let mut r = Runner::<f64>::fresh(&cfg, Sig::noise(1)).unwrap();
+            for op in &ops {
+                r.step(op);
+            }
+        }
+        cr.class = Some(format!("d13|{}", idx));
+        cr
+    }
+}
